@@ -3,5 +3,5 @@
 From SE Require Import Expr.IO C39.QueryModel C39.CoeffModel.
 Require Import ExtrOcamlBasic.
 Extraction "semodel.ml" N_of_digits Z_of_digits digits_of_N tc_lookup tc_name
-  free_symbols_st has_symbol atoms_st function_symbols coeff guard_set_binder guard_subs tree_ok
+  free_symbols_st has_symbol atoms_st function_symbols coeff guard_set_binder guard_subs tree_ok nums_ok
   get_args hash expr_eqb set_equiv mk_hx.
